@@ -540,7 +540,7 @@ def api_snapshot(directory, kind='cache', shards=2, with_check=False):
 
 
 def run_program(ctx, programs, schedule, mode='own', settings=None, kill_at=None, setup=None, kind='cache',
-                max_steps=4000, now=1000.0, shards=2, directory=None, keep_objects=False):
+                max_steps=4000, now=1000.0, shards=2, directory=None, keep_objects=False, sleep_advances=True):
     """n client threads under the deterministic scheduler (see the module docstring for the result)."""
     assert mode in ('own', 'shared')
     n = len(programs)
@@ -561,7 +561,7 @@ def run_program(ctx, programs, schedule, mode='own', settings=None, kill_at=None
             objs = [o] * n
         for o in objs[:1] if mode == 'shared' else objs:
             close_object(o)          # the creating thread's connection; clients open their own
-        s = sched.Scheduler(clock, max_steps=max_steps)
+        s = sched.Scheduler(clock, max_steps=max_steps, sleep_advances=sleep_advances)
         interps = [Interp(i, objs[i], kind, programs[i], (lambda i=i: s.nevents[i])) for i in range(n)]
 
         def prog(i):
